@@ -167,8 +167,8 @@ func ParseSpec(src string) (e *SExpr, err error) {
 type specErr string
 
 func (p *specParser) fail(f string, a ...interface{}) { panic(specErr(fmt.Sprintf(f, a...))) }
-func (p *specParser) peek() tok                        { return p.toks[p.pos] }
-func (p *specParser) next() tok                        { t := p.toks[p.pos]; p.pos++; return t }
+func (p *specParser) peek() tok                       { return p.toks[p.pos] }
+func (p *specParser) next() tok                       { t := p.toks[p.pos]; p.pos++; return t }
 func (p *specParser) isOp(s string) bool {
 	t := p.peek()
 	return t.kind == "op" && t.text == s
